@@ -232,7 +232,7 @@ func (e *Enc) calleeNames(fn *ssa.Function, body map[int]bool, out map[string]bo
 // topModset: expanded modifies clause of the function under verification (nil if it has no frame obligation).
 func (e *Enc) topModset(fr *Frame) map[string]bool {
 	top := topFrame(fr)
-	if top.spec == nil || (len(top.spec.Ensures) == 0 && len(top.spec.Modifies) == 0) {
+	if top.spec == nil || top.spec.ModifiesAll || (len(top.spec.Ensures) == 0 && len(top.spec.Modifies) == 0) {
 		return nil
 	}
 	mods, err := e.P.expandHeaps(top.spec.Modifies)
@@ -432,7 +432,7 @@ func (e *Enc) enterLoop(fr *Frame, b *ssa.BasicBlock, hdr *loopHdr, in *State, b
 	var invs []*Clause
 	var loopMods []string
 	if fr.spec != nil {
-		invs = fr.spec.Loops[ord]
+		invs = e.activeClauses(fr.spec.Loops[ord])
 		loopMods = fr.spec.LoopMods[ord]
 	}
 	// entry values of phis are already in fr.Vals (from mergePreds)
@@ -594,7 +594,7 @@ func (e *Enc) checkBackEdge(fr *Frame, src, header *ssa.BasicBlock, cur *State, 
 	ord := e.loopOrdinal(fr.Fn, header.Index)
 	var invs []*Clause
 	if fr.spec != nil {
-		invs = fr.spec.Loops[ord]
+		invs = e.activeClauses(fr.spec.Loops[ord])
 	}
 	pi := -1
 	for i, p := range header.Preds {
@@ -663,10 +663,11 @@ type FuncResult struct {
 }
 
 // VerifyFunc generates the obligations of fn against its contract.
-func VerifyFunc(p *Program, fn *ssa.Function) (res *FuncResult) {
+func VerifyFunc(p *Program, fn *ssa.Function, prop string) (res *FuncResult) {
 	name := fnName(fn)
 	res = &FuncResult{Func: name}
 	e := NewEnc(p, fn)
+	e.Prop = prop
 	e.globalsUsed = map[string]bool{}
 	res.Enc = e
 	defer func() {
@@ -711,12 +712,43 @@ func VerifyFunc(p *Program, fn *ssa.Function) (res *FuncResult) {
 		}
 		var reqs []*smt.Term
 		for _, r := range spec.Requires {
+			if !e.active(r.Props) {
+				continue
+			}
 			t, err := env.EvalBool(r.Expr)
 			if err != nil {
 				unsupported("requires %s: %v", r.Label, err)
 			}
 			reqs = append(reqs, t)
 			e.assume(st, t)
+		}
+		for _, r := range spec.Invariants {
+			if !e.active(r.Props) {
+				continue
+			}
+			t, err := env.EvalBool(r.Expr)
+			if err != nil {
+				unsupported("invariant %s: %v", r.Label, err)
+			}
+			e.assume(st, t)
+		}
+		// entry-closure axioms: a pointer found in heap h at function entry refers to an object that existed at entry
+		if hs, err := p.expandHeaps(spec.Closure); err == nil {
+			for _, h := range hs {
+				if strings.HasPrefix(h, "mapdom:") {
+					continue
+				}
+				e.ensureHeapKnown(h)
+				srt := e.hsorts[h]
+				if srt.Kind != smt.KArray || srt.Elem.Kind != smt.KArray || srt.Elem.Elem.Kind != smt.KBV || srt.Elem.Elem.W != PtrW {
+					unsupported("closure %s: not a heap of pointers", h)
+				}
+				o := c.BoundVar("co", srt.Idx)
+				k := c.BoundVar("ck", srt.Elem.Idx)
+				e.Axioms = append(e.Axioms, c.Forall([]*smt.Term{o, k}, c.Cmp("bvule", e.ptrObj(c.Select(c.Select(e.initHeap(h), o), k)), e.Alloc0)))
+			}
+		} else {
+			unsupported("closure: %v", err)
 		}
 		for _, wd := range spec.Witness {
 			sv, err := env.evalAny(wd.Expr)
@@ -771,14 +803,27 @@ func VerifyFunc(p *Program, fn *ssa.Function) (res *FuncResult) {
 			}
 		}
 		for _, en := range spec.Ensures {
+			if !e.active(en.Props) {
+				continue
+			}
 			t, err := env.EvalBool(en.Expr)
 			if err != nil {
 				unsupported("ensures %s: %v", en.Label, err)
 			}
 			e.oblige(nil, out, "ensures", en.Label, en.Src, fn.Pos(), t, en.Props)
 		}
+		for _, en := range spec.Invariants {
+			if !e.active(en.Props) {
+				continue
+			}
+			t, err := env.EvalBool(en.Expr)
+			if err != nil {
+				unsupported("invariant %s: %v", en.Label, err)
+			}
+			e.oblige(nil, out, "invariant-reestablished", en.Label, en.Src, fn.Pos(), t, en.Props)
+		}
 		// frame: every heap not listed in modifies is unchanged on pre-existing objects
-		if len(spec.Ensures) > 0 || len(spec.Modifies) > 0 {
+		if (len(spec.Ensures) > 0 || len(spec.Modifies) > 0 || len(spec.Invariants) > 0) && !spec.ModifiesAll {
 			mods, err := p.expandHeaps(spec.Modifies)
 			if err != nil {
 				unsupported("%v", err)
